@@ -33,7 +33,12 @@ try:
         subprocess.run("git -C %s checkout -q -f . && git -C %s clean -fdq" % (WT, WT), shell=True)
         ap = subprocess.run("git -C %s apply %s" % (WT, diff), shell=True, capture_output=True, text=True)
         if ap.returncode != 0:
-            print(k, "diff does not apply:", ap.stderr[:200]); continue
+            # later fix: commits touched neighbouring lines: try a three-way merge (the blobs of the base commit exist)
+            ap = subprocess.run("git -C %s apply --3way %s" % (WT, diff), shell=True, capture_output=True, text=True)
+            st = subprocess.run("git -C %s diff --name-only --diff-filter=U" % WT, shell=True, capture_output=True, text=True).stdout.strip()
+            if ap.returncode != 0 or st:
+                print(k, "diff does not apply:", (ap.stderr or st)[:200]); continue
+            print(k, "applied by three-way merge")
         base = subprocess.run(["python3", "/verif/tools/baseline_check.py", WT], capture_output=True, text=True)
         alarms = {}
         with ThreadPoolExecutor(jobs) as ex:
